@@ -80,6 +80,10 @@ M = [
  ('r2_dtremove', 'semantic', 'lib/icinga/downtime.cpp', 'if (!config_owner.IsEmpty() && removalReason == DowntimeRemovedByUser) {', 'if (!config_owner.IsEmpty() && removalReason != DowntimeExpired) {', 'the owning ScheduledDowntime can no longer remove its downtime'),
  ('r2_dtremove', 'harmless', 'lib/icinga/downtime.cpp', 'if (!downtime || downtime->GetPackage() != "_api")\n\t\treturn;', 'if (!downtime)\n\t\treturn;\n\n\tif (downtime->GetPackage() != "_api")\n\t\treturn;', 'one test per if'),
  ('r2_dttimer', 'semantic', 'lib/icinga/downtime.cpp', 'if (downtime->IsActive() &&\n\t\t\tdowntime->CanBeTriggered() &&\n\t\t\tdowntime->GetFixed()) {', 'if (downtime->IsActive() &&\n\t\t\tdowntime->CanBeTriggered()) {', 'the start timer also triggers flexible downtimes'),
+ ('r2_auth', 'semantic', 'lib/remote/apilistener-authority.cpp', 'if (num_total > 1 && endpoints.size() <= 1 && (startTime == 0 || Utility::GetTime() - startTime < 30))', 'if (num_total > 1 && endpoints.size() <= 1 && (startTime == 0 || Utility::GetTime() - startTime <= 30))', 'cold-start window one second longer'),
+ ('r2_auth', 'harmless', 'lib/remote/apilistener-authority.cpp', '\t\t\tif (endpoint != my_endpoint && !endpoint->GetConnected())\n\t\t\t\tcontinue;\n\n\t\t\tendpoints.push_back(endpoint);', '\t\t\tif (endpoint == my_endpoint || endpoint->GetConnected())\n\t\t\t\tendpoints.push_back(endpoint);', 'positive test instead of continue'),
+ ('r2_auth2', 'semantic', 'lib/remote/apilistener-authority.cpp', 'authority = endpoints[Utility::SDBM(object->GetName()) % endpoints.size()] == my_endpoint;', 'authority = endpoints[(Utility::SDBM(object->GetName()) + 1) % endpoints.size()] == my_endpoint;', 'objects are assigned to the other endpoint'),
+ ('r2_setauth', 'semantic', 'lib/base/configobject.cpp', '} else if (!authority && !GetPaused()) {', '} else if (!authority) {', 'Pause() is called again on an already paused object'),
  ('is_child_of', 'unrecognised', 'lib/remote/zone.cpp', '\tZone::Ptr azone = this;\n', '\tZone::Ptr azone = GetParent();\n', 'call outside the binding environment: degrades'),
 ]
 
